@@ -103,8 +103,12 @@ import pymodbus.server.asynchronous as tw
 from twisted.internet import reactor
 cfg = json.loads(sys.stdin.readline())
 ctx, model, blocks = SM.build(cfg["layout"])
-fac = tw.ModbusServerFactory(ctx, framer=FRAMER[cfg["framing"]], ignore_missing_slaves=cfg.get("ignore_missing_slaves", False))
-port = reactor.listenTCP(0, fac, interface="127.0.0.1")
+if cfg.get("kind") == "udp":
+    proto = tw.ModbusUdpProtocol(ctx, framer=FRAMER[cfg["framing"]], ignore_missing_slaves=cfg.get("ignore_missing_slaves", False))
+    port = reactor.listenUDP(0, proto, interface="127.0.0.1")
+else:
+    fac = tw.ModbusServerFactory(ctx, framer=FRAMER[cfg["framing"]], ignore_missing_slaves=cfg.get("ignore_missing_slaves", False))
+    port = reactor.listenTCP(0, fac, interface="127.0.0.1")
 sys.stdout.write("%d\n" % port.getHost().port); sys.stdout.flush()
 def watch():
     import threading
@@ -198,11 +202,15 @@ def tcp_exchange(port, chunks, expect_len=None, idle=0.4, total=8.0, gap=0.0):
 
 
 def udp_exchange(port, datagrams, expect=None, wait=1.5):
+    """one client socket; datagram i is sent, its answers collected (expect[i] = how many are expected, None = unknown)
+    before the next one goes out.  Returns [(i, bytes)]."""
     s = socket.socket(socket.AF_INET, socket.SOCK_DGRAM)
     s.settimeout(wait)
     out = []
     try:
         for i, dg in enumerate(datagrams):
+            if not dg:
+                continue
             s.sendto(dg, (HOST, port))
             want = expect[i] if expect is not None else None
             if want == 0:
